@@ -62,7 +62,9 @@ def pool_lib():
         if name.endswith("indices"):
             if m.ndim != 1:
                 return Opaque(name)
-            return L.filter(E, ArrData(m.shape, lambda i: i, "i"), m, st)
+            r = L.filter(E, ArrData(m.shape, lambda i: i, "i"), m, st)
+            st.get(r).strictly_increasing = True        # ascending positions (the filter contract states it)
+            return r
         return st.alloc(m)
 
     @L.fn("check_random_state")
